@@ -5,7 +5,7 @@ _NOTE = ("trusted base: the reference model in vp/oracle.py (dense Kronecker mat
 _T = "runtime monitoring: "
 
 
-_COMMON = (" Cross-cutting shards added while validating against 195+ deliberately broken variants (DESIGN.md section 8): registers "
+_COMMON = (" Cross-cutting shards added while validating against 215+ deliberately broken variants (DESIGN.md section 8): registers "
            "of 31..256 qubits (entropy: 2100) and lists up to 70001 rows (rotations: 2^20+1) around machine-word / block / half-precision "
            "thresholds (table / GF(2) / group oracles), random legal memory layouts and element types (uint8..uint64, float32/64; answers "
            "judged, refusals counted) of every array handed to the library, unusual-but-legal argument types, histories on one live "
